@@ -8,7 +8,7 @@ from vf.spec import AnyT, Ann, Coll, Ctx, F, Lit, MapT, ObjectT, Prim, Program, 
 PROP = "C13"
 SHARDS = {"quick": 8, "thorough": 16}
 TIME_CAP = {"quick": 70, "thorough": 900}
-REQUIRED = ["union_accept", "union_reject", "programs", "coerced_cases", "discriminated_accept", "discriminated_reject_tag", "discriminated_serialize", "tagged_union_cases", "same_json_type_pairs", "unsupported_member_unions"]
+REQUIRED = ["union_accept", "union_reject", "programs", "coerced_cases", "discriminated_accept", "discriminated_reject_tag", "discriminated_serialize", "tagged_union_cases", "same_json_type_pairs", "unsupported_member_unions", "discriminated_families", "discriminated_dispatch_checks_coerce", "discriminated_dispatch_checks_strict", "discriminated_untagged_checks"]
 # compiled-tree node classes this workload is expected to reach: reported as coverage gaps when missing, never a verdict
 # (a renamed internal class must not turn into an alarm)
 EXPECTED_NODES = ["node:UnionByTypeMethod", "node:UnionMethod", "node:OptionalMethod"]
@@ -421,6 +421,8 @@ SAME_JSON = [
 
 
 def run(env):
+    from vf import disc
+    disc.run_family(env, disc.check_c13, env.n(96, 4000))  # discriminated-union families first (their own budget)
     harness.tag_errors(False)
     rng = env.rng
     g = gen_types.Gen(rng)
